@@ -3,21 +3,23 @@
 package core
 
 var verifHarnesses = map[string]func(){
-	"VerifC18Exec": VerifC18Exec,
-	"VerifC18Step": VerifC18Step,
+	"VerifC18Exec":         VerifC18Exec,
+	"VerifC18Step":         VerifC18Step,
 	"VerifCoreOrderLemmas": VerifCoreOrderLemmas,
-	"VerifC04Step": VerifC04Step,
-	"VerifC06Walk": VerifC06Walk,
-	"VerifC06Step": VerifC06Step,
-	"VerifC07Walk": VerifC07Walk,
-	"VerifC05Walk": VerifC05Walk,
-	"VerifC12Walk": VerifC12Walk,
-	"VerifC13Syntax": VerifC13Syntax,
-	"VerifC13Idempotent": VerifC13Idempotent,
-	"VerifC13Reject": VerifC13Reject,
-	"VerifC12Race": VerifC12Race,
-	"VerifC12Updatable": VerifC12Updatable,
-	"VerifC05Split": VerifC05Split,
-	"VerifC07Step": VerifC07Step,
-	"VerifC07Compile": VerifC07Compile,
+	"VerifC04Step":         VerifC04Step,
+	"VerifC06Walk":         VerifC06Walk,
+	"VerifC06Step":         VerifC06Step,
+	"VerifC07Walk":         VerifC07Walk,
+	"VerifC05Walk":         VerifC05Walk,
+	"VerifC12Walk":         VerifC12Walk,
+	"VerifC13Syntax":       VerifC13Syntax,
+	"VerifC13Idempotent":   VerifC13Idempotent,
+	"VerifC13Reject":       VerifC13Reject,
+	"VerifC12Race":         VerifC12Race,
+	"VerifC12Updatable":    VerifC12Updatable,
+	"VerifC05Errors":       VerifC05Errors,
+	"VerifC05SplitErrors":  VerifC05SplitErrors,
+	"VerifC05Split":        VerifC05Split,
+	"VerifC07Step":         VerifC07Step,
+	"VerifC07Compile":      VerifC07Compile,
 }
